@@ -1,7 +1,7 @@
 """Regenerate every Generated/*.v from /repo (used by setup.sh; each check regenerates its own)."""
 import importlib, os, sys
 sys.path.insert(0, os.path.dirname(os.path.dirname(os.path.abspath(__file__))))
-for name in ['c01', 'c08', 'c09', 'c12', 'c13', 'c15']:
+for name in ['c01', 'c08', 'c09', 'c12', 'c13', 'c15', 'c20']:
     m = importlib.import_module('translate.' + name)
     r = m.generate()
     print(name, 'changed' if r[-1] else 'unchanged', r[1])
